@@ -70,6 +70,14 @@ func TestVerifC17Jar(t *testing.T) {
 			}
 		}
 	}
+	for k := range only { // replaying a step of a key history needs the earlier steps on the same object
+		for _, ph := range []string{"@history-key-removed", "@history-key-restored"} {
+			if strings.Contains(k, ph) {
+				only[strings.Replace(k, ph, "", 1)] = true
+				only[strings.Replace(k, ph, "@history-key-removed", 1)] = true
+			}
+		}
+	}
 	opsF, _ := os.Create(filepath.Join(outDir, "ops.jsonl"))
 	implF, _ := os.Create(filepath.Join(outDir, "impl.out"))
 	ops, impl := bufio.NewWriterSize(opsF, 1<<20), bufio.NewWriterSize(implF, 1<<20)
@@ -120,93 +128,123 @@ func TestVerifC17Jar(t *testing.T) {
 		return s
 	}
 
-	for round := 0; round < rounds; round++ {
-		for ki, signer := range clients {
-			clientID := "https://example.com/oauth2/" + signer.KeyName()
-			claims := map[string]interface{}{"iss": clientID, "client_id": clientID, "aud": "https://example.com/oauth2/verifier", "nonce": "n-1",
-				"response_type": "code", "iat": now.Add(-time.Minute).Unix(), "nbf": now.Add(-time.Minute).Unix(), "exp": now.Add(time.Hour).Unix()}
-			base := tokenV2.VNewBase(map[string]interface{}{"typ": "oauth-authz-req+jwt", "kid": signer.KeyID()}, tokenV2.VJSON(claims),
-				signer, clients[(ki+1)%len(clients)], mallory)
-			for _, v := range tokenV2.VHostile(r, base, 12) {
-				v.Name = "r" + strconv.Itoa(round) + "-" + signer.KeyName() + "-" + v.Name
-				info, _ := tokenV2.VAnalyse(v.Tok)
-				// what the libraries / the DID resolver say (same calls ParseJWT makes)
-				verd := map[string]interface{}{}
-				signerKid := ""
-				claimedClientID := ""
-				if info.Parses && len(info.Sigs) == 1 {
-					signerKid = info.Sigs[0].Kid
-					key, ok := source[signerKid]
-					verd["keyfound"] = ok
-					if ok {
-						verd["fits"] = tokenV2.VAlgFitsKey(info.Sigs[0].Alg, key)
-						tok, err := jwt.ParseString(v.Tok, jwt.WithKey(jwa.SignatureAlgorithm(info.Sigs[0].Alg), key), jwt.WithVerify(true), jwt.WithValidate(true))
-						verd["verified"] = err == nil
-						if err == nil { // the client_id claim as the request-object parser reads it (claim parsing is jwx's business)
-							if m, err := tok.AsMap(context.Background()); err == nil {
-								claimedClientID = parseJWTClaims(m).get(oauth.ClientIDParam)
+	// The long-lived object (jar / signature verifier / authz server) is used across a KEY HISTORY: after the main run every key is
+	// removed from the key source and the valid tokens are presented again (must be refused: the verification key is what the
+	// source returns NOW), then the keys are restored (accepted again).
+	savedKeys := map[string]crypto.PublicKey{}
+	for _, phase := range []string{"", "@history-key-removed", "@history-key-restored"} {
+		phaseRounds := rounds
+		switch phase {
+		case "@history-key-removed":
+			phaseRounds = 1
+			for k, v := range source {
+				savedKeys[k] = v
+				delete(source, k)
+			}
+		case "@history-key-restored":
+			phaseRounds = 1
+			for k, v := range savedKeys {
+				source[k] = v
+			}
+		}
+		for round := 0; round < phaseRounds; round++ {
+			for ki, signer := range clients {
+				clientID := "https://example.com/oauth2/" + signer.KeyName()
+				claims := map[string]interface{}{"iss": clientID, "client_id": clientID, "aud": "https://example.com/oauth2/verifier", "nonce": "n-1",
+					"response_type": "code", "iat": now.Add(-time.Minute).Unix(), "nbf": now.Add(-time.Minute).Unix(), "exp": now.Add(time.Hour).Unix()}
+				base := tokenV2.VNewBase(map[string]interface{}{"typ": "oauth-authz-req+jwt", "kid": signer.KeyID()}, tokenV2.VJSON(claims),
+					signer, clients[(ki+1)%len(clients)], mallory)
+				for _, v := range tokenV2.VHostile(r, base, 12) {
+					v.Name = "r" + strconv.Itoa(round) + "-" + signer.KeyName() + "-" + v.Name
+					if phase != "" { // key history on the long-lived object: only the plain valid token, after the key source changed
+						if v.Class != "valid" || !strings.HasSuffix(v.Name, "-valid") {
+							continue
+						}
+						v.Name += phase
+						if phase == "@history-key-removed" {
+							v.Class = "key-removed"
+						}
+					}
+					info, _ := tokenV2.VAnalyse(v.Tok)
+					// what the libraries / the DID resolver say (same calls ParseJWT makes)
+					verd := map[string]interface{}{}
+					signerKid := ""
+					claimedClientID := ""
+					if info.Parses && len(info.Sigs) == 1 {
+						signerKid = info.Sigs[0].Kid
+						key, ok := source[signerKid]
+						verd["keyfound"] = ok
+						if ok {
+							verd["fits"] = tokenV2.VAlgFitsKey(info.Sigs[0].Alg, key)
+							tok, err := jwt.ParseString(v.Tok, jwt.WithKey(jwa.SignatureAlgorithm(info.Sigs[0].Alg), key), jwt.WithVerify(true), jwt.WithValidate(true))
+							verd["verified"] = err == nil
+							if err == nil { // the client_id claim as the request-object parser reads it (claim parsing is jwx's business)
+								if m, err := tok.AsMap(context.Background()); err == nil {
+									claimedClientID = parseJWTClaims(m).get(oauth.ClientIDParam)
+								}
 							}
 						}
 					}
-				}
-				type envr struct {
-					name     string
-					set      jwk.Set
-					cfgErr   error
-					clientID string
-				}
-				envs := []envr{
-					{"client-publishes-signer-key", setOf(signerKid, signer.PublicJWK()), nil, clientID},
-					{"client-publishes-other-key-under-kid", setOf(signerKid, decoy.PublicJWK()), nil, clientID},
-					{"client-does-not-publish-kid", setOf("other-kid", signer.PublicJWK()), nil, clientID},
-					{"client-config-unavailable", nil, errors.New("unreachable"), clientID},
-					{"client-id-mismatch", setOf(signerKid, signer.PublicJWK()), nil, "https://example.com/oauth2/somebody-else"},
-				}
-				for _, e := range envs {
-					if len(only) > 0 && !only["jar|"+v.Name+"@"+e.name] {
-						continue
+					type envr struct {
+						name     string
+						set      jwk.Set
+						cfgErr   error
+						clientID string
 					}
-					clientSet, configErr = e.set, e.cfgErr
-					vv := map[string]interface{}{"clientid": e.clientID == claimedClientID, "configok": e.cfgErr == nil}
-					for k, x := range verd {
-						vv[k] = x
+					envs := []envr{
+						{"client-publishes-signer-key", setOf(signerKid, signer.PublicJWK()), nil, clientID},
+						{"client-publishes-other-key-under-kid", setOf(signerKid, decoy.PublicJWK()), nil, clientID},
+						{"client-does-not-publish-kid", setOf("other-kid", signer.PublicJWK()), nil, clientID},
+						{"client-config-unavailable", nil, errors.New("unreachable"), clientID},
+						{"client-id-mismatch", setOf(signerKid, signer.PublicJWK()), nil, "https://example.com/oauth2/somebody-else"},
 					}
-					// does the client publish, under the signer kid, the very key the DID resolver returned?
-					match := false
-					if e.set != nil && signerKid != "" {
-						if ck, ok := e.set.LookupKeyID(signerKid); ok {
-							if pk, ok := source[signerKid]; ok {
-								match = compareThumbprint(ck, pk) == nil
+					for _, e := range envs {
+						if len(only) > 0 && !only["jar|"+v.Name+"@"+e.name] {
+							continue
+						}
+						clientSet, configErr = e.set, e.cfgErr
+						vv := map[string]interface{}{"clientid": e.clientID == claimedClientID, "configok": e.cfgErr == nil}
+						for k, x := range verd {
+							vv[k] = x
+						}
+						// does the client publish, under the signer kid, the very key the DID resolver returned?
+						match := false
+						if e.set != nil && signerKid != "" {
+							if ck, ok := e.set.LookupKeyID(signerKid); ok {
+								if pk, ok := source[signerKid]; ok {
+									match = compareThumbprint(ck, pk) == nil
+								}
 							}
 						}
-					}
-					vv["clientkey"] = match
-					res := "reject"
-					func() {
-						defer func() {
-							if p := recover(); p != nil {
-								res = "panic"
+						vv["clientkey"] = match
+						res := "reject"
+						func() {
+							defer func() {
+								if p := recover(); p != nil {
+									res = "panic"
+								}
+							}()
+							_, err := j.validate(context.Background(), v.Tok, e.clientID)
+							if err == nil {
+								res = "accept"
+							} else if os.Getenv("VERIF_DEBUG") != "" {
+								var oe oauth.OAuth2Error
+								if errors.As(err, &oe) {
+									t.Logf("%s@%s: %v / %v", v.Name, e.name, oe.Description, oe.InternalError)
+								}
 							}
 						}()
-						_, err := j.validate(context.Background(), v.Tok, e.clientID)
-						if err == nil {
-							res = "accept"
-						} else if os.Getenv("VERIF_DEBUG") != "" {
-							var oe oauth.OAuth2Error
-							if errors.As(err, &oe) {
-								t.Logf("%s@%s: %v / %v", v.Name, e.name, oe.Description, oe.InternalError)
-							}
-						}
-					}()
-					b, _ := json.Marshal(vJarOp{Op: "consume", C: "jar", Name: v.Name + "@" + e.name, Class: v.Class, HAlg: v.HAlg, By: v.By, Envr: e.name, Info: info, V: vv})
-					ops.Write(b)
-					ops.WriteByte('\n')
-					impl.WriteString(res + "\n")
-					n++
+						b, _ := json.Marshal(vJarOp{Op: "consume", C: "jar", Name: v.Name + "@" + e.name, Class: v.Class, HAlg: v.HAlg, By: v.By, Envr: e.name, Info: info, V: vv})
+						ops.Write(b)
+						ops.WriteByte('\n')
+						impl.WriteString(res + "\n")
+						n++
+					}
 				}
 			}
 		}
 	}
+
 	if n == 0 {
 		t.Fatal("nothing generated")
 	}
